@@ -87,7 +87,7 @@ func EndBlocker(ctx sdk.Context, k keeper.Keeper) {
 		}
 
 		if requestContext.State == types.RUNNING {
-			providers, totalPrices, rawDenom, err := k.FilterServiceProviders(
+			providers, _, rawDenom, err := k.FilterServiceProviders(
 				ctx,
 				requestContext.ServiceName,
 				providers,
@@ -112,7 +112,10 @@ func EndBlocker(ctx sdk.Context, k keeper.Keeper) {
 			}
 
 			if len(providers) > 0 && len(providers) >= int(requestContext.ResponseThreshold) {
-				if err := k.DeductServiceFees(ctx, consumer, totalPrices); err != nil {
+				// charge what the requests are going to record: the prices after discounts
+				serviceFees := k.GetServiceFees(ctx, requestContext.ServiceName, providers, consumer)
+
+				if err := k.DeductServiceFees(ctx, consumer, serviceFees); err != nil {
 					k.OnRequestContextPaused(
 						ctx,
 						requestContext,
